@@ -66,6 +66,7 @@ func (gsd *Demux) Run() {
 		}
 		gsd.conns.Unlock()
 
+		vGate("demux.run.window", gsd, rpc.GetId())
 		conn.r <- rpc
 	}
 }
